@@ -14,6 +14,7 @@ PROP = "C18"
 SRC = "module M\nstruct S { a: int32 }\ninterface I { op(s: S) -> bool }\n"
 GOOD_FILES = [("ok_a.txt", "healthy a\n"), ("ok_b.txt", "é healthy b\n")]
 VALID_REPLY = wire.enc_reply([("f1.txt", "one\n"), ("f2.txt", "two é\n")], [])
+VALID_REPLY_WITH_DIAGNOSTICS = wire.enc_reply([("d1.txt", "must not be written from a cut reply\n")], [(1, "a warning", None), (0, "a note", "d1.txt")])
 
 
 def corrupt_replies():
@@ -39,6 +40,9 @@ def corrupt_replies():
     }
     for cut in range(len(VALID_REPLY)):
         out["trunc-%d" % cut] = VALID_REPLY[:cut]
+    # a reply that also carries diagnostics (the last sequence of the reply): cut at every byte, in particular right after a count
+    for cut in range(len(VALID_REPLY_WITH_DIAGNOSTICS)):
+        out["trunc-diag-%d" % cut] = VALID_REPLY_WITH_DIAGNOSTICS[:cut]
     return out
 
 
